@@ -34,13 +34,13 @@ func init() {
 					return desc(a.V) == pdNR && a.Want == Nil
 				}
 				idx := "call:gabi.(*ProofD).revocationAttrIndex(<gabi.ProofD>)"
-				mp(P, R, "C11.a", kProofDVWC+":nonrev-verified", "accept with nonrev part => NonRevocationProof.VerifyWithChallenge(pk, challenge) was true", fn, AcceptTrue(0), &MustPass{NoInterproc: true, Exempt: none, Match: func(a Atom) bool {
+				mp(P, R, "C11.a", kProofDVWC+":nonrev-verified", "accept with nonrev part => NonRevocationProof.VerifyWithChallenge(pk, challenge) was true", fn, AcceptTrue(0), &MustPass{Exempt: none, Match: func(a Atom) bool {
 					c, ok := callAtom(a, True, kRevVWC)
 					return ok && desc(c.Call.Args[0]) == pdNR && desc(c.Call.Args[1]) == pkD && desc(c.Call.Args[2]) == "arg#2"
 				}})
 				mp(P, R, "C11.a", kProofDVWC+":alpha-bound", "accept with nonrev part => the proven witness value alpha equals the credential's hidden response at the revocation index", fn, AcceptTrue(0),
-					&MustPass{NoInterproc: true, Exempt: none, Match: eqMatcher(is(pdNR+`.Responses["alpha"]`), is("<gabi.ProofD>.AResponses["+idx+"]"))})
-				mp(P, R, "C11.a", kProofDVWC+":index-found", "accept with nonrev part => a revocation attribute index was found (>= 0)", fn, AcceptTrue(0), &MustPass{NoInterproc: true, Exempt: none, Match: func(a Atom) bool {
+					&MustPass{Exempt: none, Match: eqMatcher(is(pdNR+`.Responses["alpha"]`), is("<gabi.ProofD>.AResponses["+idx+"]"))})
+				mp(P, R, "C11.a", kProofDVWC+":index-found", "accept with nonrev part => a revocation attribute index was found (>= 0)", fn, AcceptTrue(0), &MustPass{Exempt: none, Match: func(a Atom) bool {
 					g, ok := parseGuard(a, nil)
 					return ok && g.Kind == "int" && g.Subject == idx && g.Rel == ">=" && g.BoundA.String() == "0"
 				}})
@@ -56,7 +56,7 @@ func init() {
 					return
 				}
 				nu := "new:revocation.Witness.SignedAccumulator.Accumulator.Nu"
-				mp(P, R, "C11.d", kNewPC+":relation", "commitments returned => isTrue(witness copy, its accumulator's Nu, key.N)", fn, AcceptNilErr(2), &MustPass{NoInterproc: true, Match: func(a Atom) bool {
+				mp(P, R, "C11.d", kNewPC+":relation", "commitments returned => isTrue(witness copy, its accumulator's Nu, key.N)", fn, AcceptNilErr(2), &MustPass{Match: func(a Atom) bool {
 					c, ok := callAtom(a, True, "revocation.(*proofStructure).isTrue")
 					return ok && desc(c.Call.Args[1]) == "new:revocation.Witness" && desc(c.Call.Args[2]) == nu && desc(c.Call.Args[3]) == pkD+".N"
 				}})
@@ -68,7 +68,7 @@ func init() {
 				}
 				R.decide("C11.d", kNewPC+":same-nu", "the commitments are computed over that same Nu", okBase, "", P.Pos(fn.Pos()))
 				if it := mustFunc(P, R, "C11.d", "revocation.(*proofStructure).isTrue"); it != nil {
-					mp(P, R, "C11.d", FuncKey(it)+":relation", "isTrue is true only if u^alpha mod n compared equal to nu", it, AcceptTrue(0), &MustPass{NoInterproc: true, Match: func(a Atom) bool {
+					mp(P, R, "C11.d", FuncKey(it)+":relation", "isTrue is true only if u^alpha mod n compared equal to nu", it, AcceptTrue(0), &MustPass{Match: func(a Atom) bool {
 						x, y, ok := parseEq(a)
 						if !ok {
 							return false
@@ -117,7 +117,7 @@ func revocationVerifyRule(P *Program, R *Report) {
 		return
 	}
 	acc := AcceptTrue(0)
-	mp(P, R, rule, kRevVWC+":structure", "accept => verifyProofStructure passed", fn, acc, &MustPass{NoInterproc: true, Match: func(a Atom) bool {
+	mp(P, R, rule, kRevVWC+":structure", "accept => verifyProofStructure passed", fn, acc, &MustPass{Match: func(a Atom) bool {
 		_, ok := callAtom(a, True, "revocation.(*proofStructure).verifyProofStructure")
 		return ok
 	}})
@@ -130,7 +130,7 @@ func revocationVerifyRule(P *Program, R *Report) {
 	}
 	spec := pow2("global:revocation.Parameters.AttributeSize+global:revocation.Parameters.ChallengeLength+global:revocation.Parameters.ZkStat+1")
 	R.decide(rule, "revocation.Parameters.bTwoZk", "bTwoZk = 2^(AttributeSize + ChallengeLength + ZkStat + 1)", want.equal(spec), "got "+want.String(), "")
-	mp(P, R, rule, kRevVWC+":alpha-size", "accept => alpha <= bTwoZk was tested", fn, acc, &MustPass{NoInterproc: true, Match: func(a Atom) bool {
+	mp(P, R, rule, kRevVWC+":alpha-size", "accept => alpha <= bTwoZk was tested", fn, acc, &MustPass{Match: func(a Atom) bool {
 		g, ok := P.guardOf(a)
 		if !ok || g.Kind != "big" {
 			return false
@@ -142,7 +142,7 @@ func revocationVerifyRule(P *Program, R *Report) {
 		return ok && t.equal(tsum(tsym("global:revocation.Parameters.bTwoZk"), tconst(1)))
 	}})
 	var accCall *ssa.Call
-	mp(P, R, rule, kRevVWC+":accumulator-signed", "accept => SignedAccumulator.UnmarshalVerify(pk) returned nil", fn, acc, &MustPass{NoInterproc: true, Match: func(a Atom) bool {
+	mp(P, R, rule, kRevVWC+":accumulator-signed", "accept => SignedAccumulator.UnmarshalVerify(pk) returned nil", fn, acc, &MustPass{Match: func(a Atom) bool {
 		c, idx := callAndResult(a.V)
 		if c != nil && calleeName(c) == kSaccVerify && idx == 1 && a.Want == Nil && desc(c.Call.Args[0]) == revP+".SignedAccumulator" && desc(c.Call.Args[1]) == pkD {
 			accCall = c
@@ -150,7 +150,7 @@ func revocationVerifyRule(P *Program, R *Report) {
 		}
 		return false
 	}})
-	mp(P, R, rule, kRevVWC+":Nu==verified", "accept => p.Nu compared equal to the verified accumulator's Nu", fn, acc, &MustPass{NoInterproc: true, Match: func(a Atom) bool {
+	mp(P, R, rule, kRevVWC+":Nu==verified", "accept => p.Nu compared equal to the verified accumulator's Nu", fn, acc, &MustPass{Match: func(a Atom) bool {
 		x, y, ok := parseEq(a)
 		if !ok {
 			return false
@@ -170,7 +170,7 @@ func revocationVerifyRule(P *Program, R *Report) {
 		}
 	}
 	R.decide(rule, kRevVWC+":acc-source", "p.acc is the accumulator returned by UnmarshalVerify", okAcc, "", P.Pos(fn.Pos()))
-	mp(P, R, rule, kRevVWC+":challenge", "accept => p.Challenge compared equal to the challenge parameter", fn, acc, &MustPass{NoInterproc: true, Match: eqMatcher(is(revP+".Challenge"), is("arg#2"))})
+	mp(P, R, rule, kRevVWC+":challenge", "accept => p.Challenge compared equal to the challenge parameter", fn, acc, &MustPass{Match: eqMatcher(is(revP+".Challenge"), is("arg#2"))})
 }
 
 func setExpectedRule(P *Program, R *Report) {
@@ -201,10 +201,9 @@ func setExpectedRule(P *Program, R *Report) {
 			R.decide(rule, kSetExpected+":"+target, "SetExpected installs "+target+" from "+src, got == src, "got "+got, P.Pos(st.Pos()))
 			// unconditional: every nil-error return passes the assignment
 			target := target
-			mp(P, R, rule, kSetExpected+":"+target+":always", "a nil error is returned only after "+target+" was (re)assigned - a value shipped inside the proof is never kept", fn, AcceptNilErr(0), &MustPass{NoInterproc: true,
-				Instr: func(_ *ssa.Function, i ssa.Instruction) bool { return i == st }})
+			mp(P, R, rule, kSetExpected+":"+target+":always", "a nil error is returned only after "+target+" was (re)assigned - a value shipped inside the proof is never kept", fn, AcceptNilErr(0), &MustPass{Instr: func(_ *ssa.Function, i ssa.Instruction) bool { return i == st }})
 		}
-		mp(P, R, rule, kSetExpected+":verified-first", "values are installed only after the accumulator's signature verified", fn, AcceptNilErr(0), &MustPass{NoInterproc: true, Match: func(a Atom) bool {
+		mp(P, R, rule, kSetExpected+":verified-first", "values are installed only after the accumulator's signature verified", fn, AcceptNilErr(0), &MustPass{Match: func(a Atom) bool {
 			c, idx := callAndResult(a.V)
 			return c != nil && calleeName(c) == kSaccVerify && idx == 1 && a.Want == Nil
 		}})
@@ -215,7 +214,7 @@ func setExpectedRule(P *Program, R *Report) {
 	}
 	idx := "call:gabi.(*ProofD).revocationAttrIndex(<gabi.ProofD>)"
 	none := func(a Atom) bool { return desc(a.V) == pdNR && a.Want == Nil }
-	mp(P, R, rule, kProofDCC+":SetExpected-args", "contribution with a nonrev part => SetExpected(pk, p.C, AResponses[revocation index]) returned nil", cc, AcceptNilErr(1), &MustPass{NoInterproc: true, Exempt: none, Match: func(a Atom) bool {
+	mp(P, R, rule, kProofDCC+":SetExpected-args", "contribution with a nonrev part => SetExpected(pk, p.C, AResponses[revocation index]) returned nil", cc, AcceptNilErr(1), &MustPass{Exempt: none, Match: func(a Atom) bool {
 		c, ok := callAtom(a, Nil, kSetExpected)
 		if !ok {
 			return false
@@ -223,7 +222,7 @@ func setExpectedRule(P *Program, R *Report) {
 		ar := c.Call.Args
 		return desc(ar[0]) == pdNR && desc(ar[1]) == pkD && desc(ar[2]) == "<gabi.ProofD>.C" && desc(ar[3]) == "<gabi.ProofD>.AResponses["+idx+"]"
 	}})
-	mp(P, R, rule, kProofDCC+":response-present", "contribution with a nonrev part => the hidden response at the revocation index is non-nil", cc, AcceptNilErr(1), &MustPass{NoInterproc: true, Exempt: none, Match: func(a Atom) bool {
+	mp(P, R, rule, kProofDCC+":response-present", "contribution with a nonrev part => the hidden response at the revocation index is non-nil", cc, AcceptNilErr(1), &MustPass{Exempt: none, Match: func(a Atom) bool {
 		return desc(a.V) == "<gabi.ProofD>.AResponses["+idx+"]" && a.Want == NonNil
 	}})
 	// the contributions are appended
@@ -351,7 +350,7 @@ func refreshAgreementRule(P *Program, R *Report) {
 		}
 		ar := upd.Call.Args
 		R.decide(rule, kUpdCommit+":args", "the builder's own commit and commitment list are refreshed from the given witness", desc(ar[0]) == nb+".commit" && desc(ar[1]) == nb+".commitments" && desc(ar[2]) == "<revocation.Witness>", "", P.Pos(upd.Pos()))
-		q := &MustPass{P: P, NoInterproc: true, Match: func(a Atom) bool {
+		q := &MustPass{P: P, Match: func(a Atom) bool {
 			g, ok := parseGuard(a, nil)
 			return ok && g.Kind == "int" && g.Subject == nb+".index" && g.Rel == "<" && g.BoundA.String() == "<revocation.Witness>.SignedAccumulator.Accumulator.Index"
 		}}
